@@ -1,9 +1,16 @@
 """C01 — generated legal moves are exactly the legal moves of chess.
-Lean: Props/C01.lean (oracle = legality predicate; soundness of the acceptor `genCheck`; king-ray core).
-Tie: for every generated position the real MoveGen's six lists and per-move verdicts are dumped by the harness
-and judged by the proven acceptor running in the compiled Lean driver; FEN accept/reject + canonical FEN are
-compared too; sliding/king/knight/pawn attack tables, squares-between and direction tables are compared with the
-ray-walk definition exhaustively; perft cross-check on a few roots."""
+Lean: Props/C01.lean — (a) oracle = legality predicate, soundness of the acceptor `genCheck`, king-ray core;
+(b) theorems about the ALGORITHMS of moveGen.cpp, modelled in Chess/TexelGen*.lean on bitboards: sqAttacked / inCheck =
+spec, sliding attacks depend on the inner mask only (table comparison lifted to all occupancies), isLegal (all five
+paths) and removeIllegal = "king not attacked after the move", pseudoLegalMoves = movement rules without duplicates,
+pseudoLegalMoves + removeIllegal is a permutation of the legal moves.
+Tie: for every generated position (1) the real MoveGen's six lists and per-move verdicts are dumped by the harness and
+judged by the proven acceptor in the compiled Lean driver; (2) the same dump IN GENERATION ORDER (in-check flag,
+pseudo-legal list, isLegal and givesCheck per move, list after removeIllegal, evasions, captures, captures-and-checks) is
+compared line by line with the Lean model of the algorithms, after the driver has checked the hypotheses of the
+theorems (GenWF) on that position; FEN accept/reject + canonical FEN compared; sliding attack tables compared with the
+spec's AND the model's ray walk for the subsets of the implementation's own relevant-occupancy masks (compared with
+the model's inner masks), king/knight/pawn tables, squares-between and direction tables exhaustively; perft."""
 import os
 import vlib, chessgen
 
@@ -39,16 +46,35 @@ def table_lines(ctx, quick):
                 subs = list(dict.fromkeys(edge + r.sample(subs, 160)))       # thorough enumerates all 107 648 entries
             for occ in subs:
                 lines.append(f"chess atk {pc} {sq} {hex(occ)}")
+                lines.append(f"chess tatk {pc} {sq} {hex(occ)}")      # same entry against the generator model's ray walk
             for _ in range(4):                   # full random occupancies (outside the inner mask too)
-                lines.append(f"chess atk {pc} {sq} {hex(r.getrandbits(64))}")
-                lines.append(f"chess atk 2 {sq} {hex(r.getrandbits(64) & r.getrandbits(64))}")
+                o1, o2 = r.getrandbits(64), r.getrandbits(64) & r.getrandbits(64)
+                lines.append(f"chess atk {pc} {sq} {hex(o1)}"); lines.append(f"chess tatk {pc} {sq} {hex(o1)}")
+                lines.append(f"chess atk 2 {sq} {hex(o2)}"); lines.append(f"chess tatk 2 {sq} {hex(o2)}")
         for pc in (1, 5, 6, 12):
             lines.append(f"chess atk {pc} {sq} 0x0")
+            lines.append(f"chess tatk {pc} {sq} 0x0")
+        lines.append(f"chess imask 3 {sq}"); lines.append(f"chess imask 4 {sq}")
     for a in range(64):
         for b in range(64):
             lines.append(f"chess dir {a} {b}")
             lines.append(f"chess between {a} {b}")
     return lines
+
+
+def driver_parallel(lines):
+    """run the Lean driver over `lines` split across cores (the ops used here are stateless); None if it died"""
+    import concurrent.futures as cf
+    n = max(1, min(vlib.NCPU, len(lines) // 500 + 1))
+    parts = [lines[i::n] for i in range(n)]
+    with cf.ThreadPoolExecutor(n) as ex:
+        res = list(ex.map(lambda p: vlib.run_lines(vlib.driver_bin(), p), parts))
+    out = [None] * len(lines)
+    for i, (rc2, o, e) in enumerate(res):
+        if rc2 != 0 or len(o) != len(parts[i]):
+            return None
+        out[i::n] = o
+    return out
 
 
 def run(ctx):
@@ -66,9 +92,16 @@ def run(ctx):
             print(fen, "\n  impl:", o[0][:400], "\n  acceptor:", o2[0])
             if not o2[0].startswith("ok"):
                 ctx.violation("replay: acceptor still rejects", rp)
+            _, a, _ = vlib.run_lines(vh, [f"chess tmg {fen}"])
+            _, b, _ = vlib.run_lines(vlib.driver_bin(), [f"chess tmg {fen}"])
+            print("  MoveGen  :", a[0][:400], "\n  Lean model:", b[0][:400])
+            if a != b:
+                ctx.violation("replay: MoveGen and the Lean model of its algorithms still disagree", rp, no_input=True)
         return
     vlib.lean_obligations(ctx)
     ctx.assumptions += ["the rules of chess are those of lean/TexelVerif/Chess/Spec.lean (trusted text, perft-validated)",
+                        "generator model: Position's bitboards are the from-scratch bitboards of the board and makeMove's board effect is Chess.apply (both C02: Inv, makeMove_refines; makeMoveB is read as the board part of makeMove); "
+                        "`while (m) extractSquare(m)` visits set bits in ascending order; BitBoard::rook/bishopAttacks have the shape table[sq][f(occ & mask[sq])] (bitBoard.hpp:302-316, by reading); MoveList never overflows (256 entries)",
                         "class of the capture / capture-and-check generators: promotions to queen or knight only (rook/bishop under-promotions are deliberately omitted by the code)"]
     # 1. tables, exhaustive in thorough
     tl = table_lines(ctx, quick)
@@ -78,6 +111,13 @@ def run(ctx):
     if mis is not None:
         ctx.violation(f"attack/geometry table entry differs from the ray-walk definition: `{tl[mis]}` impl {out1[mis]} spec {out2[mis]}",
                       {"kind": "table", "input": [tl[mis]], "impl": out1[mis], "spec": out2[mis]})
+    # the masks whose subsets are enumerated are the implementation's rMasks/bMasks (= the model's rookInner/bishopInner,
+    # compared above): Props.C01.rook_table_lift then extends the table comparison to all 2^64 occupancies
+    for i, l in enumerate(tl):
+        w = l.split()
+        if w[1] == "imask" and mis is None and int(out1[i], 16) != inner_mask(int(w[3]), w[2] == "3"):
+            ctx.violation(f"relevant-occupancy mask of square {w[3]} is not the set of inner ray squares: {out1[i]}",
+                          {"kind": "table", "input": [l], "impl": out1[i]})
     # 2. positions
     ngames, plies, nsyn = (300, 160, 20000) if quick else (4000, 220, 200000)
     fens = chessgen.games(ctx, ngames, plies) + chessgen.synthetic(ctx.rng, nsyn)
@@ -97,17 +137,26 @@ def run(ctx):
         ctx.violation(f"harness died in MoveGen on `{accepted[k]}` (rc={rc})", {"kind": "impl-crash", "input": [accepted[k]], "stderr": err})
         return
     chk = [f"chess mgchk {f} {d}" for f, d in zip(accepted, dumps)]
-    # split over cores
-    import concurrent.futures as cf
-    n = max(1, min(vlib.NCPU, len(chk) // 500 + 1))
-    parts = [chk[i::n] for i in range(n)]
-    with cf.ThreadPoolExecutor(n) as ex:
-        res = list(ex.map(lambda p: vlib.run_lines(vlib.driver_bin(), p), parts))
-    verdicts = [None] * len(chk)
-    for i, (rc2, o, e) in enumerate(res):
-        if rc2 != 0 or len(o) != len(parts[i]):
-            ctx.violation("Lean driver died in the acceptor", {"kind": "model-crash", "stderr": e[-500:]}, no_input=True); return
-        verdicts[i::n] = o
+    verdicts = driver_parallel(chk)
+    if verdicts is None:
+        ctx.violation("Lean driver died in the acceptor", {"kind": "model-crash"}, no_input=True); return
+    # 2b. the Lean model of the generator itself (Chess/TexelGen*.lean) against the real one, list order included
+    tl2 = [f"chess tmg {f}" for f in accepted]
+    rc, impl2, err = vlib.run_lines(vh, tl2)
+    model2 = driver_parallel(tl2)
+    if rc != 0 or len(impl2) != len(tl2) or model2 is None:
+        ctx.violation("harness or driver died in the generator differential", {"kind": "impl-crash", "stderr": err[-500:]}, no_input=True); return
+    ctx.count(len(tl2))
+    ctx.tie("movegen-model", kind="differential (real MoveGen vs the Lean model of its algorithms: in-check flag, pseudo-legal list in generation order, "
+            "isLegal verdict per move, list after removeIllegal, givesCheck per move, evasion / capture / capture-and-check lists in order)", positions=len(tl2))
+    nd = 0
+    for f, a, b in zip(accepted, impl2, model2):
+        if a != b:
+            nd += 1
+            if nd <= 3:
+                ctx.violation(f"MoveGen and the Lean model of its algorithms (Chess.Texel.*) disagree on `{f}`: impl `{a[:300]}` model `{b[:300]}` — "
+                              "the theorems Props.C01.texel_* no longer describe this code",
+                              {"kind": "correspondence", "tie": "movegen-model", "input": [f], "impl": a, "model": b}, no_input=True)
     stats = {"positions": len(accepted), "rejected_by_reader": rejected, "in_check": 0, "no_legal_move": 0, "with_ep": 0,
              "with_castling_rights": 0, "with_promotions": 0, "legal_moves_total": 0, "capture_class_moves": 0, "check_class_moves": 0}
     nbad = 0
@@ -138,6 +187,7 @@ def run(ctx):
     ctx.cov["rule"] = ("positions = all positions of random legal games from the initial and seeded start positions (real generator used only to produce inputs) + synthetic placements "
                        "(random sparse/dense with promotion-consistent counts, pins, en-passant pins on rank/diagonal, castling through/into attacked squares, promotions with capture, checks and double checks); "
                        "distinct = distinct board+side+castling+ep; every position: FEN accept/reject and canonical FEN compared with the model, MoveGen dump judged by the acceptor; "
-                       "tables: rook/bishop attacks for subsets of the inner mask (all 107 648 in thorough) + random full occupancies, king/knight/pawn attacks, 64x64 direction and squares-between")
+                       "tables: rook/bishop attacks for subsets of the inner mask (all 107 648 in thorough) + random full occupancies, each against the spec's and the generator model's ray walk, the masks themselves, king/knight/pawn attacks, 64x64 direction and squares-between; "
+                       "every accepted position additionally: hypotheses GenWF of the generator theorems evaluated, ordered dump of the real MoveGen == Lean model of its algorithms")
     if not quick:
         vlib.leanchecker(ctx, ["TexelVerif.Props.C01"])
